@@ -508,12 +508,12 @@ PROPERTIES["C13"] = {
           inputs="three strings of %d,%d,%d symbolic ASCII bytes" % s, bounds="transitivity on exactly these lengths",
           covers_unsat_ok=["strict chain", "premise a<=b<=c reached"])
        for s in [(1, 1, 1), (1, 1, 2), (1, 2, 1), (2, 1, 1), (1, 2, 2), (2, 1, 2), (2, 2, 1), (2, 2, 2), (0, 1, 2), (2, 1, 0), (1, 0, 2)]]
-    + [MH("c13_prefixed_" + k, inputs="literal prefix + symbolic tail on both sides", bounds="shape " + k, timeout=1800, tier=("quick" if k in ("big64", "big_vs_bigger", "zeros", "tilde", "caret") else "thorough"))
-       for k in ("big64", "big64_2", "big_vs_bigger", "zeros", "dot_big", "alpha_long", "tilde", "caret", "sep_runs")]
+    + [MH("c13_prefixed_" + k, inputs="literal prefix + symbolic tail on both sides", bounds="shape " + k, timeout=1800, tier=("quick" if k in ("big64", "big_vs_bigger", "zeros", "tilde", "caret", "nonascii_sep", "nonascii_mid", "nonascii_both") else "thorough"))
+       for k in ("big64", "big64_2", "big_vs_bigger", "zeros", "dot_big", "alpha_long", "tilde", "caret", "sep_runs", "nonascii_sep", "nonascii_lead", "nonascii_mid", "nonascii_both")]
     + [MH("c13_evr_%d_%d_%d_%d" % s, inputs="two EVRs with symbolic epoch digits, version and release bytes", bounds="epoch lengths %d/%d, version %d, release %d" % s, timeout=1800,
           covers_unsat_ok=["equal pair", "unequal pair"]) for s in [(0, 0, 1, 1), (0, 1, 1, 1), (1, 0, 1, 1), (1, 1, 1, 1), (0, 1, 1, 0), (2, 1, 1, 0)]],
     "bounds": "version strings of up to 4 ASCII bytes each (pairs), up to 2 bytes each (triples), all 127 byte values per position; plus literal long prefixes (19/20-digit runs, long alpha runs, separator runs, tilde/caret) with 1-2 symbolic bytes appended; EVR pairs with epochs of 0..2 digits",
-    "outside": "longer strings, non-ASCII characters, NUL bytes; EVR/NEVRA ordering beyond what the c13_evr_* harnesses list",
+    "outside": "longer strings, non-ASCII characters other than the literal one in the c13_prefixed_nonascii_* shapes, NUL bytes; EVR/NEVRA ordering beyond what the c13_evr_* harnesses list",
     "assumptions": A_MIR,
     "technique": None,
 }
